@@ -1,4 +1,4 @@
-\* random catalogs (tlc -simulate): 2 databases x 2 collection names x 2 incarnations x 2 partition names x 2 incarnations
+\* random catalogs (tlc -simulate): 2 databases x 2 collection names x 2 incarnations x 2 partition names x 2 incarnations; every position of the source time relative to the local clock
 SPECIFICATION Spec
 CHECK_DEADLOCK FALSE
 INVARIANTS PlanOut
@@ -13,6 +13,8 @@ CONSTANTS
   PStates = {"creating", "created", "dropping", "dropped", "tombstone"}
   Concrete <- NamesPlain
   Now = 100
+  Skews = {"behind", "equal", "window", "ahead", "far"}
+  ClampLocal = FALSE
   FixStaleDb = TRUE
   LiveDbGuard = TRUE
   SafeKeys = TRUE
